@@ -105,6 +105,9 @@ func getRawFileDataFromRemote(reqURL string) (*whispertool.Header, PointsList, e
 	if err != nil {
 		return nil, nil, err
 	}
+	if err := remoteStatusError(resp, data); err != nil {
+		return nil, nil, err
+	}
 
 	if len(data) == 0 {
 		return nil, nil, convertRemoteErrNotExist(resp)
